@@ -349,10 +349,15 @@ func checkC05(c *Ctx) {
 	if !quick(c) {
 		trn.NTree, trn.EntKinds = 3, []string{"file", "tree"}
 	}
+	// long names: path lengths pass the 8-bit capacity (254-byte names stay below it)
+	long := baseCfg("Scan_Bomb_longnames_narrow", "Bomb")
+	long.Cap32, long.Cap64 = 255, 65535
+	long.NTree, long.MaxEnt, long.NameLens, long.CSizes, long.BlobSizes = 4, 2, "Seq_100_120_90", "Seq_200", "Seq_200"
+	long.EntKinds = []string{"file", "link", "tree"}
 	nNarrow := 0
 	var narrowCases []cases.ScanCase
 	var narrowB []Behaviour
-	for _, cfg := range []scanCfg{bomb, trn} {
+	for _, cfg := range []scanCfg{bomb, trn, long} {
 		tlcScan(c, withExport(cfg), 30*time.Minute, func(b *Behaviour) {
 			nNarrow++
 			if len(narrowCases) >= 6000 && nNarrow%7 != 0 {
